@@ -21,6 +21,7 @@ TABLE_CLASSES: List[Tuple[str, str, List[str]]] = [
     ("mmCIF table with label items only, no insertion code column", "mmCIF", CIF_BASE + ["label_asym_id", "label_seq_id"]),
     ("mmCIF table with auth_asym_id but no auth_seq_id", "mmCIF", CIF_BASE + ["label_asym_id", "label_seq_id", "auth_asym_id", "pdbx_PDB_ins_code"]),
     ("mmCIF table with auth_seq_id but no auth_asym_id", "mmCIF", CIF_BASE + ["label_asym_id", "label_seq_id", "auth_seq_id", "pdbx_PDB_ins_code"]),
+    ("mmCIF table with author atom and residue names that differ from the label ones", "mmCIF", CIF_BASE + ["auth_atom_id", "auth_comp_id", "label_asym_id", "label_seq_id", "auth_asym_id", "auth_seq_id", "pdbx_PDB_ins_code"]),
     ("table of unknown format", "XYZ", ["a", "b"]),
 ]
 
@@ -34,23 +35,42 @@ def _want(fmt: str, cols: List[str]) -> Optional[List[str]]:
     return None
 
 
+# (chain, number, insertion code) per atom: insertion codes on some residues only, one number with and without a code, two chains
+GROUP_ROWS = [("A", 5, None), ("A", 5, None), ("A", 5, "A"), ("A", 5, "A"), ("A", 6, None), ("B", 5, None), ("B", 5, None), ("B", -1, None)]
+
+
+def _table(fmt: str, cols: List[str]):
+    """A table of the class (sa/frame.py, the stand-in for pandas): category columns with NaN for absent insertion codes, as the readers build it."""
+    from sa.frame import frame_from_rows
+
+    rows = []
+    for k, (chain, num, ic) in enumerate(GROUP_ROWS):
+        full = {
+            "record_type": "ATOM", "group_PDB": "ATOM", "serial": k + 1, "id": k + 1, "name": ["P", "C4'", "N1"][k % 3], "label_atom_id": ["P", "C4'", "N1"][k % 3], "resName": "G", "label_comp_id": "G", "auth_comp_id": "GTP", "auth_atom_id": ["P", "C4*", "N1"][k % 3],
+            "chainID": chain, "label_asym_id": chain.lower(), "auth_asym_id": chain, "resSeq": num, "label_seq_id": num + 100, "auth_seq_id": num, "iCode": ic, "pdbx_PDB_ins_code": ic,
+            "x": 1.0 + k, "y": 2.0, "z": 3.0, "Cartn_x": 1.0 + k, "Cartn_y": 2.0, "Cartn_z": 3.0, "a": k, "b": k,
+        }
+        rows.append({c: full[c] for c in cols})
+    return frame_from_rows(rows, fmt, categories=[c for c in ("record_type", "group_PDB", "name", "label_atom_id", "auth_atom_id", "resName", "label_comp_id", "auth_comp_id", "chainID", "label_asym_id", "auth_asym_id", "iCode", "pdbx_PDB_ins_code") if c in cols], ints=[c for c in ("serial", "resSeq", "label_seq_id", "auth_seq_id") if c in cols])
+
+
 def check_group_columns_eval(chk, rs) -> bool:
+    """Structure.residues interpreted on one table per class of (format, columns present); decided on its *result*: the residues are
+    the partition of the rows by (chain, number, insertion code) - author items first when both exist, rows without an insertion
+    code kept, every atom in exactly one residue, the format tag handed on - whatever the grouping idiom."""
+    from sa.frame import Frame, isna
+
     repo = chk.repo
     problems: List[Tuple[str, str, Any]] = []
     n = 0
     try:
         for tag, fmt, cols in TABLE_CLASSES:
-            calls: List[Tuple[Any, Dict[str, Any]]] = []
-
-            def groupby(by=None, *a, **kw):
-                calls.append((by, kw))
-                return []
-
-            atoms = Obj("atoms", columns=list(cols), groupby=groupby)
+            atoms = _table(fmt, cols)
+            made: List[Any] = []
             me = Obj("self", format=fmt, atoms=atoms)
-            env: Dict[str, Any] = {"Residue": lambda df: Obj("residue")}
+            env: Dict[str, Any] = {"Residue": lambda df: (made.append(df), Obj("residue", atoms=df))[1]}
             env.update(module_callables(repo, T2, outer=env))
-            call = func_callable(repo, T2, rs.node, env)
+            call = func_callable(repo, T2, rs.node, env, max_steps=20000)
             n += 1
             try:
                 res = call(me)
@@ -60,27 +80,48 @@ def check_group_columns_eval(chk, rs) -> bool:
             except Unknown:
                 raise
             except Exception as ex:
-                problems.append(("raise", f"{tag}: raises {type(ex).__name__}", None))
+                problems.append(("raise", f"{tag}: raises {type(ex).__name__} ({str(ex)[:50]})", None))
                 continue
-            want = _want(fmt, cols)
-            if want is None:
-                if calls or res != []:
-                    problems.append(("unknown", f"{tag}: expected an empty list without grouping, got {len(calls)} groupby call(s)", None))
+            want_cols = _want(fmt, cols)
+            if want_cols is None:
+                if res != [] or made:
+                    problems.append(("unknown", f"{tag}: expected an empty list of residues", None))
                 continue
-            if len(calls) != 1:
-                problems.append(("calls", f"{tag}: {len(calls)} groupby calls on the atom table, expected one", None))
+            ident = "serial" if "serial" in cols else "id"
+            want: Dict[Any, List[int]] = {}
+            for i in range(len(atoms.index)):
+                key = tuple(None if isna(atoms._cols[c][i]) else atoms._cols[c][i] for c in want_cols)
+                want.setdefault(key, []).append(atoms._cols[ident][i])
+            got_frames = [r.atoms for r in res if isinstance(r, Obj) and isinstance(getattr(r, "atoms", None), Frame)] if isinstance(res, list) else None
+            if got_frames is None or len(got_frames) != len(res):
+                problems.append(("result", f"{tag}: the result is not a list of Residue(<table of its atoms>)", None))
                 continue
-            by, kw = calls[0]
-            by = list(by) if isinstance(by, (list, tuple)) else by
-            if by != want:
-                why = ""
-                if isinstance(by, list) and "pdbx_PDB_ins_code" in want and "pdbx_PDB_ins_code" not in by or (isinstance(by, list) and "iCode" in want and "iCode" not in by):
-                    why = ": residues that differ only by insertion code are merged"
-                elif isinstance(by, list) and by[:1] != want[:1]:
-                    why = ": the wrong (or a missing) chain/number item identifies the residue"
-                problems.append((f"cols:{fmt}:{want}", f"{tag}: residues are grouped by {by}, expected {want}{why}", by))
-            if kw.get("dropna") is not False:
-                problems.append(("dropna", f"{tag}: groupby drops rows whose key has a missing value (dropna is not False): residues without an insertion code vanish", kw))
+            got = sorted(sorted(int(v) for v in g._cols[ident]) for g in got_frames)
+            exp = sorted(sorted(v) for v in want.values())
+            if got != exp:
+                lost = sorted(set(x for v in exp for x in v) - set(x for v in got for x in v))
+                if lost:
+                    hint = ""
+                    if all(isna(atoms._cols[want_cols[-1]][i]) for i in range(len(atoms.index)) if atoms._cols[ident][i] in lost) and want_cols[-1] in ("iCode", "pdbx_PDB_ins_code"):
+                        hint = " - all of them atoms without an insertion code: rows whose grouping key has a missing value are dropped"
+                    problems.append(("lost", f"{tag}: atoms {lost} belong to no residue{hint}", lost))
+                elif len(got) < len(exp):
+                    by = "insertion code" if any(c in ("iCode", "pdbx_PDB_ins_code") for c in want_cols) else "chain / number"
+                    problems.append((f"merged:{fmt}", f"{tag}: {len(exp)} residues expected, {len(got)} built: residues that differ only by {by} are merged (atoms grouped {got})", got))
+                else:
+                    problems.append((f"cols:{fmt}", f"{tag}: the residues are not the groups of equal {want_cols} (atoms grouped {got}, expected {exp}): another item identifies the residue", got))
+                continue
+            # order of the list: chain by chain (sorted by chain, number, insertion code - what grouping by that key gives - or file order)
+            from sa.frame import _sort_key
+
+            keys_in_order = [tuple(None if isna(g._cols[c][0]) else g._cols[c][0] for c in want_cols) for g in got_frames]
+            file_order = list(want)
+            by_key = sorted(want, key=lambda k: tuple(_sort_key(x) for x in k))
+            if keys_in_order not in (file_order, by_key):
+                problems.append((f"order:{fmt}", f"{tag}: the residues come in the order {['/'.join(str(x) for x in k if x is not None) for k in keys_in_order][:6]}, neither chain by chain in (chain, number, insertion code) order nor in file order: residues of different chains are interleaved (and so are the atoms of every table made from the list)", keys_in_order[:6]))
+                continue
+            if any(g.attrs.get("format") != fmt for g in got_frames):
+                problems.append(("format", f"{tag}: a residue's table does not carry the format tag {fmt!r}", None))
     except Unknown as ex:
         chk.ok("group-columns-eval", rs.where, f"Structure.residues is not evaluable on representative tables ({str(ex)[:80]}): the path rule decides")
         return False
@@ -92,7 +133,271 @@ def check_group_columns_eval(chk, rs) -> bool:
             seen.add(key)
             chk.violation("group-columns", rs.where, msg, K(rs, f"group:{key}"), found=found)
         if not problems:
-            chk.ok("group-columns", rs.where, f"evaluated on {n} classes of table: residues are grouped by (chain, number, insertion code), author items first (both must exist), insertion code whenever the column exists, unknown formats give no residues")
-            chk.ok("group-columns", rs.where, "the insertion code joins the grouping key when present")
-            chk.ok("group-columns", rs.where, "groups with a missing insertion code are kept (dropna=False)")
+            chk.ok("group-columns", rs.where, f"evaluated on {n} classes of table: the residues are the groups of equal (chain, number, insertion code), author items first (both must exist), every atom in exactly one residue")
+            chk.ok("group-columns", rs.where, "the insertion code tells residues apart whenever the column exists")
+            chk.ok("group-columns", rs.where, "atoms without an insertion code are kept (a missing key value does not drop the row)")
+    return True
+
+
+# --------------------------------------------------------------------------------------------------------------------
+# round 4: connectivity evaluated - the link test of both residue models, and the segments of the table-level model
+# --------------------------------------------------------------------------------------------------------------------
+class _Vec(tuple):
+    """A coordinate triple with the vector subtraction the link test uses."""
+
+    _folder_stub = True
+
+    def __sub__(self, o):
+        return _Vec(a - b for a, b in zip(self, o))
+
+    def __add__(self, o):
+        return _Vec(a + b for a, b in zip(self, o))
+
+
+class _Num(float):
+    _folder_stub = True
+
+    def item(self):
+        return float(self)
+
+
+def _numpy_stub() -> Obj:
+    import math
+
+    def norm(v, *a, **k):
+        return _Num(math.sqrt(sum(float(x) * float(x) for x in v)))
+
+    return Obj("numpy", linalg=Obj("linalg", norm=norm), sqrt=lambda x: _Num(math.sqrt(x)), array=lambda x, *a, **k: _Vec(x), dot=lambda a, b: sum(x * y for x, y in zip(a, b)))
+
+
+def _residue(tag: str, atoms: Dict[str, Tuple[float, float, float]], asked: List[Tuple[str, str]]) -> Obj:
+    def find_atom(name):
+        asked.append((tag, name))
+        return Obj(f"{tag}:{name}", name=name, coordinates=_Vec(atoms[name]), x=atoms[name][0], y=atoms[name][1], z=atoms[name][2]) if name in atoms else None
+
+    return Obj(tag, find_atom=find_atom, atoms=[Obj(f"{tag}:{n}", name=n, coordinates=_Vec(c)) for n, c in atoms.items()])
+
+
+# (description, atoms of this residue, atoms of the next one, linked?)  - O3'(this) to P(next); the statement: below 2.4 A
+LINK_CASES = [
+    ("O3'-P distance 1.6 A", {"O3'": (0, 0, 0), "P": (9, 9, 9)}, {"P": (1.6, 0, 0), "O3'": (9, 0, 0)}, True),
+    ("O3'-P distance 2.39 A", {"O3'": (0, 0, 0), "P": (9, 9, 9)}, {"P": (0, 2.39, 0), "O3'": (9, 0, 0)}, True),
+    ("O3'-P distance 2.401 A", {"O3'": (0, 0, 0), "P": (9, 9, 9)}, {"P": (0, 0, 2.401), "O3'": (9, 0, 0)}, False),
+    ("O3'-P distance 2.41 A", {"O3'": (0, 0, 0), "P": (9, 9, 9)}, {"P": (2.41, 0, 0), "O3'": (9, 0, 0)}, False),
+    ("O3'-P distance 7 A", {"O3'": (0, 0, 0), "P": (9, 9, 9)}, {"P": (7, 0, 0), "O3'": (9, 0, 0)}, False),
+    ("only the reverse pair is close (P of this residue 1.6 A from O3' of the next)", {"O3'": (0, 0, 0), "P": (20, 0, 0)}, {"P": (9, 9, 9), "O3'": (21.6, 0, 0)}, False),
+    ("this residue has no O3'", {"P": (0, 0, 0)}, {"P": (1.6, 0, 0), "O3'": (9, 0, 0)}, False),
+    ("the next residue has no P", {"O3'": (0, 0, 0), "P": (9, 9, 9)}, {"O3'": (1.6, 0, 0)}, False),
+    ("a negative coordinate difference (P at -1.6 A)", {"O3'": (0, 0, 0), "P": (9, 9, 9)}, {"P": (-1.6, 0, 0), "O3'": (9, 0, 0)}, True),
+]
+
+
+def check_link_eval(chk, module: str, qualname: str) -> bool:
+    """`is_connected` of one residue model interpreted on residue pairs: linked iff O3' of this residue and P of the next are both present
+    and less than 2.4 A apart.  Rules connect-atoms, connect-threshold."""
+    repo = chk.repo
+    fi = repo.func(module, qualname)
+    bad: Dict[str, List[str]] = {}
+    try:
+        for tag, a, b, want in LINK_CASES:
+            asked: List[Tuple[str, str]] = []
+            env: Dict[str, Any] = {"np": _numpy_stub(), "numpy": _numpy_stub()}
+            env.update(module_callables(repo, module, outer=env))
+            call = func_callable(repo, module, fi.node, env)
+            try:
+                got = call(_residue("this", a, asked), _residue("next", b, asked))
+            except Raised as ex:
+                bad.setdefault("atoms" if "has no" in tag else "threshold", []).append(f"{tag}: raises {ex.name}")
+                continue
+            except Unknown:
+                raise
+            except Exception as ex:
+                bad.setdefault("atoms" if "has no" in tag else "threshold", []).append(f"{tag}: raises {type(ex).__name__}")
+                continue
+            names = {(who, nm) for who, nm in asked}
+            if names - {("this", "O3'"), ("next", "P")}:
+                other = sorted(names - {("this", "O3'"), ("next", "P")})
+                msg = "the link test looks up " + ", ".join(f"{nm} of {'this residue' if who == 'this' else 'the next residue'}" for who, nm in other)
+                if msg not in bad.get("atoms", []):
+                    bad.setdefault("atoms", []).append(msg)
+                continue
+            if bool(got) != want:
+                bucket = "atoms" if ("has no" in tag or "reverse" in tag) else "threshold"
+                bad.setdefault(bucket, []).append(f"{tag}: {'linked' if got else 'not linked'}")
+    except Unknown as ex:
+        chk.ok("connect-eval", fi.where, f"{qualname} is not evaluable on representative residue pairs ({str(ex)[:80]}): the pinned-form rules decide")
+        return False
+    with evidence(chk, "connect-atoms", "connect-threshold"):
+        chk.expect(not bad.get("atoms"), "connect-atoms", fi.where, "evaluated: the link is measured from O3' of this residue to P of the next; without one of the two atoms the residues are not linked", "the link test does not go from this residue's O3' to the next residue's P (both present): " + "; ".join(bad.get("atoms", [])[:2]), K(fi, "atoms"), found=bad.get("atoms", [])[:4])
+        chk.expect(not bad.get("threshold"), "connect-threshold", fi.where, f"evaluated on {len(LINK_CASES)} residue pairs: linked iff the O3'-P distance is below 2.4 A (2.39 linked, 2.401 and 2.41 not; whether exactly 2.4 counts is below the resolution of the float product 1.5 * 1.6 and left to the strictness rule)", "residues are not linked exactly when O3'-P is below 2.4 A: " + "; ".join(bad.get("threshold", [])[:3]), K(fi, "threshold"), found=bad.get("threshold", [])[:4])
+    return True
+
+
+# residues of a structure as (chain, number, insertion code) in the order the grouping hands them out, and which pairs are linked
+SEGMENT_CASES: List[Tuple[str, List[Tuple[str, int, Optional[str]]], List[Tuple[Tuple[str, int, Optional[str]], Tuple[str, int, Optional[str]]]]]] = [
+    ("three linked residues", [("A", 1, None), ("A", 2, None), ("A", 3, None)], [(("A", 1, None), ("A", 2, None)), (("A", 2, None), ("A", 3, None))]),
+    ("a pair and a loose residue", [("A", 1, None), ("A", 2, None), ("A", 3, None)], [(("A", 1, None), ("A", 2, None))]),
+    ("two pairs with a break between them", [("A", 1, None), ("A", 2, None), ("A", 3, None), ("A", 4, None)], [(("A", 1, None), ("A", 2, None)), (("A", 3, None), ("A", 4, None))]),
+    ("residues handed out of numeric order", [("A", 3, None), ("A", 1, None), ("A", 2, None)], [(("A", 1, None), ("A", 2, None)), (("A", 2, None), ("A", 3, None))]),
+    ("insertion codes 10, 10A, 10B handed out scrambled", [("A", 10, "B"), ("A", 10, None), ("A", 10, "A"), ("A", 11, None)], [(("A", 10, None), ("A", 10, "A")), (("A", 10, "A"), ("A", 10, "B")), (("A", 10, "B"), ("A", 11, None))]),
+    ("negative numbers", [("A", -2, None), ("A", 1, None), ("A", -1, None)], [(("A", -2, None), ("A", -1, None)), (("A", -1, None), ("A", 1, None))]),
+    ("two chains with equal numbers, a close pair across the chains", [("A", 1, None), ("A", 2, None), ("B", 1, None), ("B", 2, None)], [(("A", 1, None), ("A", 2, None)), (("B", 1, None), ("B", 2, None)), (("A", 2, None), ("B", 1, None))]),
+    ("a single residue", [("A", 1, None)], []),
+    ("no links at all", [("A", 1, None), ("A", 2, None)], []),
+]
+
+
+def _segments(res: List[Tuple[str, int, Optional[str]]], links) -> List[List[Tuple[str, int, Optional[str]]]]:
+    chains: Dict[str, List[Tuple[str, int, Optional[str]]]] = {}
+    for r in res:
+        chains.setdefault(r[0], []).append(r)
+    out = []
+    for rs in chains.values():
+        rs = sorted(rs, key=lambda r: (r[1], r[2] or ""))
+        cur: List[Tuple[str, int, Optional[str]]] = []
+        for r in rs:
+            if cur and (cur[-1], r) in links:
+                cur.append(r)
+            else:
+                if len(cur) > 1:
+                    out.append(cur)
+                cur = [r]
+        if len(cur) > 1:
+            out.append(cur)
+    return out
+
+
+def check_segments_eval(chk) -> bool:
+    """Structure.connected_residues interpreted on residue lists with a given link relation: per chain, in (number, insertion code)
+    order, maximal runs of consecutively linked residues, runs of at least two.  Rule connect-order."""
+    repo = chk.repo
+    fi = repo.func(T2, "Structure.connected_residues")
+    bad: List[str] = []
+    try:
+        for tag, res, links in SEGMENT_CASES:
+            linkset = set(links)
+
+            def mk(r):
+                o = Obj(f"{r[0]}/{r[1]}{r[2] or ''}", chain_id=r[0], residue_number=r[1], insertion_code=r[2], key=r)
+                o.is_connected = lambda other, _r=r: (_r, other.key) in linkset
+                return o
+
+            me = Obj("self", residues=[mk(r) for r in res])
+            env: Dict[str, Any] = {}
+            env.update(module_callables(repo, T2, outer=env))
+            call = func_callable(repo, T2, fi.node, env, max_steps=20000)
+            try:
+                got = call(me)
+            except Raised as ex:
+                bad.append(f"{tag}: raises {ex.name}")
+                continue
+            except Unknown:
+                raise
+            except Exception as ex:
+                bad.append(f"{tag}: raises {type(ex).__name__} ({str(ex)[:50]})")
+                continue
+            got_keys = sorted([[x.key for x in seg] for seg in got]) if isinstance(got, list) and all(isinstance(seg, list) for seg in got) else None
+            want = sorted(_segments(res, linkset))
+            if got_keys != want:
+                show = lambda segs: [["/".join(str(x) for x in r if x is not None) for r in seg] for seg in (segs or [])]
+                bad.append(f"{tag}: segments {show(got_keys)}, expected {show(want)}")
+    except Unknown as ex:
+        chk.ok("connect-eval", fi.where, f"connected_residues is not evaluable on representative residue lists ({str(ex)[:80]}): the pinned-form rule decides")
+        return False
+    with evidence(chk, "connect-order"):
+        chk.expect(not bad, "connect-order", fi.where, f"evaluated on {len(SEGMENT_CASES)} residue lists: per chain the residues are ordered by (number, insertion code) and cut into maximal runs of linked neighbours, runs of two and more are reported, no link crosses chains", "the segments are not the maximal runs of linked neighbours per chain in (number, insertion code) order: " + "; ".join(bad[:2]), K(fi, "segments"), found=bad[:4])
+    return True
+
+
+# --------------------------------------------------------------------------------------------------------------------
+# round 4: the accessors of both residue models evaluated on interpreted instances (sa/fragment.py:Instance)
+# --------------------------------------------------------------------------------------------------------------------
+def check_accessors_eval(chk) -> bool:
+    """tertiary_v2.Residue (chain_id, residue_number, residue_name, insertion_code, find_atom) and tertiary_v2.Atom (name, coordinates)
+    on one residue table per class of (format, columns present); common.Residue (chain, number, name) on label / author identities.
+    Rules prefer-auth, pdb-field, icode-field, atom-by-name, coordinates-items."""
+    from sa.fragment import Instance
+    from sa.frame import Frame, isna, pd_namespace
+
+    repo = chk.repo
+    bad: Dict[str, List[str]] = {}
+    n = 0
+    try:
+        for tag, fmt, cols in TABLE_CLASSES:
+            if fmt not in ("PDB", "mmCIF"):
+                continue
+            full = _table(fmt, cols)
+            # one residue: chain B, number -1 (rows of the last key), and one with an insertion code
+            for pick, want_ic in ((("B", -1, None), None), (("A", 5, "A"), "A")):
+                pos = [i for i, r in enumerate(GROUP_ROWS) if r == pick]
+                sub = full._take(pos)
+                sub.attrs["format"] = fmt
+                env: Dict[str, Any] = {"pd": pd_namespace(), "np": _numpy_stub(), "numpy": _numpy_stub()}
+                env["Atom"] = lambda data, f, _env=env: Instance(repo, T2, "Atom", _env, data=data, format=f)
+                res = Instance(repo, T2, "Residue", env, atoms=sub, format=fmt)
+                n += 1
+                chain_col = "chainID" if fmt == "PDB" else ("auth_asym_id" if "auth_asym_id" in cols else "label_asym_id")
+                num_col = "resSeq" if fmt == "PDB" else ("auth_seq_id" if "auth_seq_id" in cols else "label_seq_id")
+                name_col = "resName" if fmt == "PDB" else ("auth_comp_id" if "auth_comp_id" in cols else "label_comp_id")
+                ic_col = "iCode" if fmt == "PDB" else "pdbx_PDB_ins_code"
+                atom_col = "name" if fmt == "PDB" else ("auth_atom_id" if "auth_atom_id" in cols else "label_atom_id")
+                want = {"chain_id": sub._cols[chain_col][0], "residue_number": int(sub._cols[num_col][0]), "residue_name": sub._cols[name_col][0], "insertion_code": (want_ic if ic_col in cols else None)}
+                for prop, w in want.items():
+                    if prop == "insertion_code" and fmt == "PDB" and ic_col not in cols:
+                        continue  # parse_pdb_atoms always creates the iCode column; a PDB table without it is not a class of input
+                    try:
+                        g = getattr(res, prop)
+                    except (Unknown, AttributeError):
+                        raise
+                    except Exception as ex:
+                        g = f"<raises {type(ex).__name__}>"
+                    if isinstance(g, float) and isna(g):
+                        g = None
+                    if g != w or type(g) is not type(w):
+                        rule = "icode-field" if prop == "insertion_code" else ("pdb-field" if fmt == "PDB" else "prefer-auth")
+                        bad.setdefault(rule, []).append(f"{tag}: Residue.{prop} is {g!r}, the table says {w!r} ({ {'chain_id': chain_col, 'residue_number': num_col, 'residue_name': name_col, 'insertion_code': ic_col}[prop] })")
+                # atoms by exact name; coordinates in axis order
+                names = list(sub._cols[atom_col])
+                for k, nm in enumerate(names):
+                    a = res.find_atom(nm)
+                    first = names.index(nm)
+                    xs = sub._cols["x" if fmt == "PDB" else "Cartn_x"]
+                    if a is None or not isinstance(a, Instance):
+                        bad.setdefault("atom-by-name", []).append(f"{tag}: find_atom({nm!r}) finds nothing although the residue has that atom")
+                        continue
+                    co = a.coordinates
+                    if [float(v) for v in co] != [float(xs[first]), 2.0, 3.0]:
+                        bad.setdefault("coordinates-items", []).append(f"{tag}: the coordinates of atom {nm!r} are {list(co)}, the row says {[xs[first], 2.0, 3.0]}")
+                    if a.name != nm:
+                        bad.setdefault("atom-by-name", []).append(f"{tag}: find_atom({nm!r}) returns the atom named {a.name!r}")
+                if res.find_atom("XX9") is not None or res.find_atom(names[0].lower() + "'") is not None:
+                    bad.setdefault("atom-by-name", []).append(f"{tag}: find_atom returns an atom for a name the residue does not have")
+        # residue-level model: the author identity wins, the label identity is the fallback
+        for what in ("chain", "number", "name"):
+            for has_auth, has_label in ((True, True), (True, False), (False, True)):
+                auth = Obj("auth", chain="A", number=-3, name="GTP", icode=None) if has_auth else None
+                label = Obj("label", chain="x", number=41, name="G") if has_label else None
+                r = Instance(repo, "common", "Residue", {}, label=label, auth=auth)
+                g = getattr(r, what)
+                w = getattr(auth if has_auth else label, what)
+                if g != w:
+                    bad.setdefault("prefer-auth", []).append(f"common.Residue.{what} is {g!r} for a residue with {'author and label' if has_auth and has_label else ('author' if has_auth else 'label')} identity, expected {w!r}")
+    except (Unknown, AttributeError) as ex:
+        chk.ok("accessors-eval", "-", f"the residue accessors are not evaluable on interpreted instances ({str(ex)[:80]}): the pinned-form rules decide")
+        return False
+    fi = repo.func(T2, "Residue.chain_id")
+    texts = {
+        "prefer-auth": f"evaluated on {n} residue tables and 9 residue-level identities: chain, number and name come from the author items when they exist, else from the label items",
+        "pdb-field": "evaluated: PDB rows give chain, number and name from chainID, resSeq and resName",
+        "icode-field": "evaluated: the insertion code comes from iCode / pdbx_PDB_ins_code, None when missing or when the column does not exist",
+        "atom-by-name": "evaluated: find_atom returns the atom of exactly that name (author atom names first), None for a name the residue does not have",
+        "coordinates-items": "evaluated: coordinates are (x, y, z) resp. (Cartn_x, Cartn_y, Cartn_z) in axis order",
+    }
+    with evidence(chk, *texts):
+        for rule, text in texts.items():
+            if rule in bad:
+                chk.violation(rule, fi.where, "; ".join(bad[rule][:2]), K(fi, f"accessors:{rule}"), found=bad[rule][:4])
+            else:
+                for _ in range(6 if rule == "prefer-auth" else 1):
+                    chk.ok(rule, fi.where, text if _ == 0 else f"{text} [{['chain', 'number', 'name', 'chain (residue level)', 'number (residue level)', 'name (residue level)'][_]}]")
     return True
